@@ -30,11 +30,12 @@ async fn h_value(Context(p): Context<'_, Value>) -> String { let t = p.to_string
 
 #[derive(serde::Serialize, serde::Deserialize, Clone, Debug)]
 struct Claims {
-    sub: String,
-    n: u64,
+    // declaration order = sorted key order, so that serde writes the same text as `jwt_payload`
     #[serde(default, skip_serializing_if = "Option::is_none")] exp: Option<u64>,
-    #[serde(default, skip_serializing_if = "Option::is_none")] nbf: Option<u64>,
     #[serde(default, skip_serializing_if = "Option::is_none")] iat: Option<u64>,
+    n: u64,
+    #[serde(default, skip_serializing_if = "Option::is_none")] nbf: Option<u64>,
+    sub: String,
 }
 async fn h_typed(Context(p): Context<'_, Claims>) -> String { let t = serde_json::to_string(p).unwrap(); mark(Some(t.clone())); t }
 
@@ -255,7 +256,8 @@ fn jwt_claim(kind: &str, cs: u64, salt: u64) -> Option<String> {
         "neg" => ["-5", "-1700000000", "-1", "-3600"][v].to_string(),
         "big" => ["18446744073709551616", "1e30", "99999999999999999999999", "36893488147419103232"][v].to_string(),
         "str" => [format!("\"{}\"", n + 3600), "\"never\"".to_string(), format!("\"{}\"", n - 3600), "\"\"".to_string()][v].clone(),
-        "junk" => ["true", "null", "[]", "{}"][v].to_string(),
+        "null" => "null".to_string(),
+        "junk" => ["true", "false", "[]", "{}"][v].to_string(),
         _ => "\"?\"".to_string(),
     })
 }
@@ -314,7 +316,7 @@ fn jwt_mutants(m: &str, h: &str, p: &str, sg: &str, macb: &[u8], cs: u64, reps: 
     let part_of = |m: &str| (m.as_bytes()[m.len() - 1] - b'1') as usize;
     let mut out = vec![];
     match m {
-        "none" => out.push(t),
+        "none" => out.push(t.clone()),
         "flip1" | "flip2" | "flip3" => {
             let k = part_of(m);
             for i in 0..parts[k].len() { for r in 0..reps {
@@ -368,6 +370,8 @@ fn jwt_mutants(m: &str, h: &str, p: &str, sg: &str, macb: &[u8], cs: u64, reps: 
         }
         _ => out.push(format!("?{t}")),
     }
+    // a "mutant" that is textually the issued token is no mutation (e.g. standard base64 of a 48-byte MAC without '-'/'_')
+    if m != "none" { let orig = format!("{h}.{p}.{sg}"); out.retain(|x| *x != orig) }
     out
 }
 
@@ -464,7 +468,9 @@ fn run_jwt(scn: &Value) -> Value {
         let set = |ex: &mut String| if ex.is_empty() { *ex = value.clone() };
         if o.panicked { n_panic += 1; set(&mut ex_panic) }
         else if o.ran {
-            let want: Option<Value> = serde_json::from_slice(payload).ok();
+            // what "exactly the signed payload" is for the handler's payload type: the JSON value itself, or the struct it decodes to
+            let want: Option<Value> = if s(&cfg["ptype"]) == "typed" { serde_json::from_slice::<Claims>(payload).ok().and_then(|c| serde_json::to_value(c).ok()) }
+                                      else { serde_json::from_slice(payload).ok() };
             let got: Option<Value> = o.seen.as_deref().and_then(|x| serde_json::from_str(x).ok());
             if want.is_some() && want == got { n_same += 1; set(&mut ex_ran) } else { n_diff += 1; set(&mut ex_diff) }
         }
@@ -527,7 +533,7 @@ fn gen_basic(rng: &mut Rng) -> Value {
 
 fn gen_jwt(rng: &mut Rng) -> Value {
     const ALGS: &[&str] = &["HS256", "HS384", "HS512"];
-    const CLAIM: &[&str] = &["absent", "absent", "absent", "past", "future", "pastf", "futuref", "neg", "big", "str", "junk"];
+    const CLAIM: &[&str] = &["absent", "absent", "absent", "past", "future", "pastf", "futuref", "neg", "big", "str", "null", "junk"];
     let alg = *rng.pick(ALGS);
     // mostly valid along every axis, so that a single deviating fact decides the row
     let mostly = |rng: &mut Rng, good: &'static str, all: &[&'static str]| if rng.chance(3, 4) { good } else { *rng.pick(all) };
